@@ -156,13 +156,15 @@ pub fn mlpg_reference(windows: &[Vec<f64>], frames: &[(bool, Vec<(f64, f64)>)]) 
 pub struct MlpgDense;
 
 fn window_sets(t: &mut Tape) -> (String, Vec<Vec<f64>>) {
-    match t.weighted(&[2, 3, 5, 2, 2, 1]) {
+    match t.weighted(&[4, 6, 10, 4, 4, 2, 3]) {
         0 => ("static".into(), vec![WIN_STATIC.to_vec()]),
         1 => ("delta".into(), vec![WIN_STATIC.to_vec(), WIN_D3.to_vec()]),
         2 => ("delta+accel".into(), vec![WIN_STATIC.to_vec(), WIN_D3.to_vec(), WIN_A3.to_vec()]),
         3 => ("width5".into(), vec![WIN_STATIC.to_vec(), WIN_D5.to_vec(), WIN_A5.to_vec()]),
         4 => ("mixed3/5".into(), vec![WIN_STATIC.to_vec(), WIN_D3.to_vec(), WIN_A5.to_vec()]),
-        _ => ("delta5-only".into(), vec![WIN_STATIC.to_vec(), WIN_D5.to_vec()]),
+        5 => ("delta5-only".into(), vec![WIN_STATIC.to_vec(), WIN_D5.to_vec()]),
+        // the widest window is not the last one
+        _ => ("mixed5/3".into(), vec![WIN_STATIC.to_vec(), WIN_D5.to_vec(), WIN_A3.to_vec()]),
     }
 }
 
@@ -172,7 +174,7 @@ impl Prop for MlpgDense {
         "mlpg-dense".into()
     }
     fn rule(&self) -> String {
-        "public MlpgAdjust::new(.., ModelStream{gv: None}).create(durations): 1..60 states, durations 1..8, vector length 1..4, means in [-3,3], variances in [0.05,3], window sets {static; +delta; +delta+accel (width 3); width-5; mixed 3/5}, voicing {non-MSD all voiced | random | all unvoiced | islands of 1-2 frames | voiced with short gaps}; compared with the dense solve. Non-trivial: >= 1 dynamic window and >= 2 voiced frames".into()
+        "public MlpgAdjust::new(.., ModelStream{gv: None}).create(durations): 1..60 states, durations 1..8, vector length 1..4, means in [-3,3], variances in [0.05,3], window sets {static; +delta; +delta+accel (width 3); width-5; mixed 3/5; mixed 5/3 (widest window not last)}, exact +-0.0 among the means (a third of the cases), voicing {non-MSD all voiced | random | all unvoiced | islands of 1-2 frames | voiced with short gaps}; compared with the dense solve. Non-trivial: >= 1 dynamic window and >= 2 voiced frames".into()
     }
     fn tape_len(&self, _: Tier) -> usize {
         60 * (4 * 3 * 2 * 4 + 3) + 32
@@ -201,10 +203,27 @@ impl Prop for MlpgDense {
         let voicing = ["all-voiced-nonmsd", "random", "all-unvoiced", "islands", "short-gaps"][vmode].to_string();
         let nw = windows.len();
         let mut run = 0usize;
+        // exact zeros (+0.0 / -0.0) among the means: flat trajectories are what real models
+        // have for the dynamic features of steady states
+        let zero_mode = t.weighted(&[6, 2, 1]);
         let states = (0..nstates)
             .map(|i| {
                 let means: Vec<f64> = (0..nw * vector_length)
-                    .map(|m| if m < vector_length { t.uniform(-3.0, 3.0) } else { t.uniform(-0.5, 0.5) })
+                    .map(|m| {
+                        let v = if m < vector_length { t.uniform(-3.0, 3.0) } else { t.uniform(-0.5, 0.5) };
+                        let p_zero = match (zero_mode, m < vector_length) {
+                            (0, _) => 0.0,
+                            (1, true) => 0.1,
+                            (1, false) => 0.3,
+                            (_, true) => 0.0,
+                            (_, false) => 1.0,
+                        };
+                        if p_zero > 0.0 && t.chance(p_zero) {
+                            if t.chance(0.5) { 0.0 } else { -0.0 }
+                        } else {
+                            v
+                        }
+                    })
                     .collect();
                 let vars: Vec<f64> = (0..nw * vector_length).map(|_| t.log_uniform(0.05, 3.0)).collect();
                 let voiced = match vmode {
